@@ -1967,6 +1967,11 @@ func (t *Topic) anotherUserSub(sess *Session, asUid, target types.Uid, asChan bo
 	// Check if it's a new invite. If so, save it to database as a subscription.
 	// Saved subscription does not mean the user is allowed to post/read
 	userData, existingSub := t.perUser[target]
+	if t.cat == types.TopicCatP2P && !existingSub {
+		// A p2p topic has exactly two participants: nobody else can be invited to it.
+		sess.queueOut(ErrPermissionDeniedReply(pkt, now))
+		return nil, errors.New("attempt to invite a third user to a p2p topic")
+	}
 	if !existingSub || userData.deleted {
 		// Check if the max number of subscriptions is already reached.
 		if t.cat == types.TopicCatGrp && t.subsCount() >= globals.maxSubscriberCount {
